@@ -75,6 +75,12 @@ theorem slots_injective :
     (∀ t ∈ encTables, (t.2.map (·.2)).Nodup) :=
   ⟨index_enums_injective, writer_slots_in_window, reader_slots_in_window, window_size_mono, enc_tables_injective⟩
 
+/-- The item numbers of IWEL/SWEL/XWEL/ZWEL/ICON/SCON/XCON, of the InteHEAD items and of the IWEL value
+codes are the pinned on-disk layout (Model/RstLayout.lean): a consistent renumbering on writer and
+reader side would still round-trip inside OPM but change the file format. -/
+theorem layout_pinned : ∀ q ∈ RstLayout.pinned, ∀ nv ∈ q.2, (enumOf q.1).lookup nv.1 = some nv.2 :=
+  RstSlot.layout_pinned
+
 /-- Generated tables: every (writer entry, reader entry) pair that meets on one array element — same
 array, same *index* — with both shapes recognised is in a compatible class (same measure, inverse
 offset, matching Boolean / enum coding, same summary key), for RstWell / RstConnection and for
@@ -87,6 +93,14 @@ theorem field_tables_agree :
     (∀ x ∈ declaredExceptions, ∃ p ∈ pairs writer reader, p.2.field = x.1 ∧ pairCls p = .mismatch) ∧
     unpairedReaderFields = ["well.prevent_thpctrl_if_unstable", "well.liquid_rate", "well.gas_fvf"] :=
   ⟨reader_pairs_classified, loader_pairs_classified, exceptions_all_occur, unpaired_reader_fields⟩
+
+/-- Every reader field fed from a summary vector (rates, pressures, ratios, totals of RstWell /
+RstConnection / data::Wells) receives exactly the vectors of its stated meaning, and every such field is fed. -/
+theorem field_meanings :
+    (∀ p ∈ pairs writer (reader ++ loader), ∀ allowed, fieldMeaning.lookup p.2.field = some allowed →
+      ∀ k ∈ p.1.rpre.core.smryKeys, k ∈ allowed) ∧
+    (∀ fm ∈ fieldMeaning, ∃ p ∈ pairs writer (reader ++ loader), p.2.field = fm.1 ∧ p.1.rpre.core.smryKeys ≠ []) :=
+  ⟨RstSlot.field_meanings, field_meanings_fed⟩
 
 /-- INTE arrays (IWEL, ICON): for every pair of shapes in class `exact`, decode (encode x) = x for every
 integer x (Boolean sources: 0/1). -/
